@@ -229,6 +229,10 @@ static void config_case(int be, int k, int m, int hd, int w)
         char **ed = NULL, **ep = NULL; uint64_t fl = 0;
         int rc = liberasurecode_encode(desc, (char *)d, lens[li], &ed, &ep, &fl);
         if (rc == 0) {
+            /* "can be used for encode, decode ...": success means the k+m fragments exist */
+            int holes = !ed || (m > 0 && !ep) || fl < 80;
+            for (int i = 0; !holes && i < k + m; i++) if (!(i < k ? ed[i] : ep[i - k])) holes = 1;
+            if (holes) { vh_violation("encode-success-without-output", "encode(len=%lu) on an accepted (backend %d, k=%d, m=%d, w=%d) instance returned 0 but fragment pointers are NULL / fragment_len=%lu", (unsigned long)lens[li], be, k, m, w, (unsigned long)fl); if (ed || ep) liberasurecode_encode_cleanup(desc, ed, ep); gbuf_free(&gd); continue; }
             int n = k + m; char *list[64]; int nf = 0;
             /* decode from the last k fragments (uses parity when there is any), then from all */
             for (int i = n - k; i < n; i++) list[nf++] = i < k ? ed[i] : ep[i - k];
